@@ -2,4 +2,5 @@ import Generated.EcdsaInt
 import Generated.Kernels
 import Generated.NTTables
 import Generated.RWLock
+import Generated.Steps
 import Generated.UtilCanon
